@@ -43,6 +43,50 @@ func directedCases() (fails []string, n int) {
 		n++
 	}
 
+	// 1b. GetProperty on adversarial property names: a known name answers, any other name is ErrNotFound, nothing
+	//     panics (it did: "leveldb.num-files-at-level9223372036854775808" indexed the level slice with a negative
+	//     int; repaired by 6d718bd)
+	{
+		st := vstor.New(false)
+		db, err := leveldb.Open(st, small)
+		if err != nil {
+			fail("Open: %v", err)
+			return
+		}
+		for i := 0; i < 40; i++ {
+			db.Put([]byte(fmt.Sprintf("k%03d", i)), make([]byte, 300), nil)
+		}
+		names := []string{"leveldb.num-files-at-level0", "leveldb.num-files-at-level1", "leveldb.num-files-at-level99",
+			"leveldb.num-files-at-level2147483648", "leveldb.num-files-at-level4294967296", "leveldb.num-files-at-level9223372036854775807",
+			"leveldb.num-files-at-level9223372036854775808", "leveldb.num-files-at-level18446744073709551615",
+			"leveldb.num-files-at-level18446744073709551616", "leveldb.num-files-at-level-1", "leveldb.num-files-at-level", "leveldb.num-files-at-level1x",
+			"leveldb.num-files-at-level 1", "leveldb.stats", "leveldb.compcount", "leveldb.iostats", "leveldb.writedelay", "leveldb.sstables",
+			"leveldb.blockpool", "leveldb.cachedblock", "leveldb.openedtables", "leveldb.alivesnaps", "leveldb.aliveiters", "leveldb.", "leveldb", "", "x",
+			"leveldb.nosuch", "LEVELDB.stats", "leveldb.stats ", "leveldb.num-files-at-level\x00"}
+		for _, name := range names {
+			nm := name
+			var v string
+			var gerr error
+			cr, pan, hung := guard(10*time.Second, func() cres { v, gerr = db.GetProperty(nm); return cres{detail: "x"} })
+			_ = cr
+			if pan != "" || hung {
+				fail("GetProperty(%q): hung=%v panic=%q", nm, hung, firstLine(pan))
+				continue
+			}
+			if gerr != nil && gerr != leveldb.ErrNotFound {
+				fail("GetProperty(%q): error %v, expected a value or ErrNotFound", nm, gerr)
+			}
+			if gerr == nil && v == "" && nm != "leveldb.sstables" {
+				fail("GetProperty(%q): empty value without an error", nm)
+			}
+		}
+		db.Close()
+		if _, err := db.GetProperty("leveldb.stats"); err != leveldb.ErrClosed {
+			fail("GetProperty after Close: %v, expected ErrClosed", err)
+		}
+		n++
+	}
+
 	// 2. read-only Open when two journal files must be replayed (failed with io.EOF): storage A holds journal Ja
 	//    with batch a; a clone B is opened read-write (Ja is flushed, Jb created), receives batch b, is closed;
 	//    Jb is copied into a clone of A, whose manifest still names Ja: Ja and Jb are both replayed.
